@@ -45,10 +45,16 @@ fn main() {
     .expect("Error setting SIGINT handler");
 
     // Handle SIGTERM (sent by VS Code)
+    // This closure runs inside the signal handler, on whatever the main thread was doing: it may
+    // only touch atomics. Printing from here (eprintln! takes stderr's lock) aborted the process
+    // with "RefCell already borrowed" when the signal arrived while the main thread was itself
+    // printing; the notice is printed on the way out instead.
     let interrupted_clone = Arc::clone(&interrupted);
+    let sigterm_seen = Arc::new(AtomicBool::new(false));
+    let sigterm_seen_clone = Arc::clone(&sigterm_seen);
     unsafe {
         signal_hook::low_level::register(signal_hook::consts::SIGTERM, move || {
-            eprintln!("\nReceived SIGTERM. Cleaning up...");
+            sigterm_seen_clone.store(true, Ordering::SeqCst);
             interrupted_clone.store(true, Ordering::SeqCst);
         })
         .expect("Error setting SIGTERM handler");
@@ -361,6 +367,9 @@ fn main() {
     // Check if we were interrupted during execution
     if interrupted.load(Ordering::SeqCst) {
         // We were interrupted - exit gracefully to allow Drop destructors to run
+        if sigterm_seen.load(Ordering::SeqCst) {
+            eprintln!("\nReceived SIGTERM. Cleaning up...");
+        }
         eprintln!("Operation interrupted, cleaning up...");
         std::process::exit(130);
     }
